@@ -271,6 +271,44 @@ def apply_or_template(rng, cfg, case):
     return case
 
 
+def apply_three_var_template(rng, cfg, case):
+    """Templates over THREE variables, all selected: (0) a conjunct over one variable and a disjunction whose sides mention
+    two OTHER, unrelated variables - and_(A(a), or_(G(b), H(c))): the right operand of the conjunction shares no variable
+    with the left one and its cache entries mix full and partial bindings; (1) a disjunction of two joins over different
+    variable pairs followed by a conjunct over one of the pairs - and_(or_(J(a, c), J(a, b)), K(a, b))."""
+    ids = [v[0] for v in case['vars']]
+    if len(ids) < 3:
+        return case
+    a, b, c = rng.sample(ids, 3)
+    g = CondGen(rng, cfg, ids)
+
+    def single(v):
+        g.var_ids = [v]
+        if rng.random() < 0.5:
+            return ('truth', ('attr', 'flag', ('var', v)))
+        return g.atom()
+
+    def join(u, w, f1=None, f2=None):
+        return ('cmp', rng.choice(('eq', 'eq', 'le', 'ne')), ('attr', f1 or rng.choice('ab'), ('var', u)),
+                ('attr', f2 or rng.choice('ab'), ('var', w)))
+    if rng.random() < 0.5:
+        disj = ('or', single(b), single(c))
+        # (the conjunct over a is often true for every a, so that the right operand is asked again for the second a)
+        first = single(a) if rng.random() < 0.4 else ('cmp', 'ge', ('attr', 'a', ('var', a)), ('lit', ('i', 0)))
+        pair = [first, disj]
+    else:
+        disj = ('or', join(a, c), join(a, b))
+        if rng.random() < 0.3:
+            disj = ('or', disj[2], disj[1])
+        pair = [disj, join(a, b)]
+    if rng.random() < 0.25:
+        pair.reverse()
+    case['cond'] = [('and',) + tuple(pair)] if rng.random() < 0.7 else pair
+    case['sel'] = [('var', v) for v in rng.sample(ids, len(ids))]
+    case['entity'] = False
+    return case
+
+
 def apply_truth_operand_template(rng, case):
     """Template: ONE attribute used twice in the same condition tree, as a bare truthiness condition (possibly negated)
     and as a comparison operand - the two roles must not influence each other."""
